@@ -108,6 +108,7 @@ class Env:
         self.fns = []
         self.macros = []
         self.badmacros = []
+        self.letfns = []  # (name, value): functions closing over a top-level let variable
         self.n = 0
 
     def fresh(self, p):
@@ -148,6 +149,15 @@ def _value_shapes():
         v = env.fresh("v")
         return "(do (setv %s %d) #(%s %d))" % (v, c, v, U), (c, U), "", ("var", v, c)
 
+    def let_closure_call(U, env, c):
+        # a function defined by an earlier input inside a top-level let still sees that let's variable, however many
+        # inputs (each with lets of its own, binding the same name) came in between
+        if env.letfns:
+            f, v = env.letfns[c % len(env.letfns)]
+            return "[(%s) %d]" % (f, U), [v, U], "", None
+        f = env.fresh("lf")
+        return "(let [x %d] (defn %s [] x)) [(%s) %d]" % (c, f, f, U), [c, U], "", ("letfn", f, c)
+
     def multi_setv(U, env, c):
         v = env.fresh("v")
         return "(setv %s %d) [%s %d]" % (v, c, v, U), [c, U], "", ("var", v, c)
@@ -178,6 +188,8 @@ def _value_shapes():
         ("variable", var_ref),
         ("function-call", fn_call),
         ("macro-call", macro_call),
+        ("let-closure-call", let_closure_call),
+        ("let-closure-call-again", let_closure_call),
         ("if", lambda U, env, c: ('(if (> %d 0) "y%d" "n")' % (U, U), "y%d" % U, "", None)),
         ("lfor", lambda U, env, c: ("(lfor x [1 2] (+ x %d))" % U, [U + 1, U + 2], "", None)),
         ("fn-call", lambda U, env, c: ('((fn [x] #(x %d)) "z")' % U, ("z", U), "", None)),
@@ -209,6 +221,10 @@ def _none_shapes():
         m = env.fresh("bm")
         return '(defmacro %s [] (raise (ValueError "u%s"))) None' % (m, m), "", ("badmacro", m)
 
+    def let_closure(U, env, c):
+        f = env.fresh("lf")
+        return "(let [x %d] (defn %s [] x))" % (c + 1000, f), "", ("letfn", f, c + 1000)
+
     def value_then_setv(U, env, c):
         v = env.fresh("v")
         return "%d (setv %s %d)" % (U, v, c), "", ("var", v, c)
@@ -219,6 +235,8 @@ def _none_shapes():
         ("print", lambda U, env, c: ('(print "p%d")' % U, "p%d\n" % U, None)),
         ("when-false", lambda U, env, c: ("(when False %d)" % U, "", None)),
         ("defn", defn),
+        ("let-closure", let_closure),
+        ("let-closure-again", let_closure),
         ("defmacro", defmacro),
         ("defmacro-that-raises", badmacro),
         ("import", lambda U, env, c: ("(import math)", "", None)),
@@ -336,6 +354,8 @@ def _apply(env, eff):
         env.macros.append(eff[1])
     elif eff[0] == "badmacro":
         env.badmacros.append(eff[1])
+    elif eff[0] == "letfn":
+        env.letfns.append((eff[1], eff[2]))
 
 
 def build_session(steps):
@@ -355,7 +375,7 @@ def build_session(steps):
         inp = dict(kind=kind)
         lbb = None
         eff = None
-        known = set(env.vars) | set(env.fns) | set(env.macros) | set(env.badmacros)
+        known = set(env.vars) | set(env.fns) | set(env.macros) | set(env.badmacros) | {f for f, _ in env.letfns}
         if kind == "value":
             r = fn(U, env, c)
             if r is None:  # needs a variable and none exists yet
